@@ -73,12 +73,13 @@ OidIdx == 13     \* position of the object's ID alias in AllPairs
 
 \* Named deviations of the implementation (Layer B).  They are never part of a verdict: a rejected
 \* case is re-evaluated with ONE deviation switched on and, if the observed rows are exactly what
-\* that deviation predicts, the case is attributed to it (DESIGN 8).  dv = "" is Layer A.
+\* that deviation predicts, the case is attributed to it (DESIGN 8).  dv is the SET of deviations that
+\* are switched on; dv = {} is Layer A.
 \*  "oid-alias-unchecked":  the ID alias of a NODE object is stored without the check that a binding
 \*      repeated inside the clause takes one value (it overwrites the earlier value of that name)
 \*  "rows-without-bindings-dropped": the result table cannot hold a row without bindings, so a clause
 \*      without any binding that is not fully specified never adds rows: see Step
-Unchecked(c, t, dv, i) == dv = "oid-alias-unchecked" /\ i = OidIdx /\ t.o.k = "N"
+Unchecked(c, t, dv, i) == "oid-alias-unchecked" \in dv /\ i = OidIdx /\ t.o.k = "N"
 
 \* a binding repeated inside one clause must take one value
 Consistent(c, t, ps, dv) == \A i, j \in Named(ps) :
@@ -121,14 +122,14 @@ Step(S, cs, i, D, glo, ghi, dv) ==
         ext(x) == {[a |-> Merge(x.a, Assign(c, d[2])), w |-> Append(x.w, d)] :
                       d \in {d \in D : Matches(c, d[2], glo, ghi, dv) /\ Compatible(x.a, Assign(c, d[2]))}}
         nul(x) == [a |-> Merge(x.a, [b \in ClauseNames(c) |-> Null]), w |-> Append(x.w, <<0, NoTriple>>)]
-    IN  IF dv = "rows-without-bindings-dropped" /\ ClauseNames(c) = {} /\ ~Specific(c)
+    IN  IF "rows-without-bindings-dropped" \in dv /\ ClauseNames(c) = {} /\ ~Specific(c)
         \* deviation: such a clause never adds rows to the table: it is skipped while the table has no
         \* bindings yet and empties the result (product with an empty table) afterwards
         THEN (IF PrevNames(cs, i) = {} \/ c.opt THEN S ELSE {})
         ELSE UNION {IF c.opt /\ ext(x) = {}
                     \* deviation: the one solution of a binding-free prefix (the empty row) does not
                     \* exist in the table, so an unmatched OPTIONAL clause after it yields nothing
-                    THEN (IF dv = "rows-without-bindings-dropped" /\ DOMAIN x.a = {} THEN {} ELSE {nul(x)})
+                    THEN (IF "rows-without-bindings-dropped" \in dv /\ DOMAIN x.a = {} THEN {} ELSE {nul(x)})
                     ELSE ext(x) : x \in S}
 
 RECURSIVE Fold(_, _, _, _, _, _, _)
@@ -140,7 +141,7 @@ Data(graphs) == UNION {{<<g, TRI[graphs[g][i]]>> : i \in DOMAIN graphs[g]} : g \
 
 SolutionsOver(D, q, dv) == Fold({Empty}, q.clauses, 1, D, q.glo, q.ghi, dv)
 SolutionsDev(q, dv) == SolutionsOver(Data(q.graphs), q, dv)
-Solutions(q) == SolutionsDev(q, "")
+Solutions(q) == SolutionsDev(q, {})
 
 \* the row a solution projects to: proj = sequence of source binding names
 ProjRow(a, proj) == [i \in DOMAIN proj |-> a[proj[i]]]
@@ -158,7 +159,7 @@ RowsOKDev(rows, q, dv) ==
         lo(r) == Cardinality({x.a : x \in {y \in S : ProjRow(y.a, q.proj) = r}})
     IN  /\ Range(rows) \subseteq exp                        \* no row that is not a solution
         /\ \A r \in exp : Count(rows, r) >= lo(r) /\ Count(rows, r) <= up(r)   \* none missing
-RowsOK(rows, q) == RowsOKDev(rows, q, "")
+RowsOK(rows, q) == RowsOKDev(rows, q, {})
 Deviations == {"oid-alias-unchecked", "rows-without-bindings-dropped"}
 
 \* Patterns whose meaning the property leaves open: an OPTIONAL clause sharing a binding that only
